@@ -476,6 +476,17 @@ def add_rule(v, rep):
 
 def sqrt(x):
     x = Sym.lift(x)
+    if x is not None and x.d is None and x.n.is_const() and (STATE is None or not STATE.pc.inf):
+        # a constant (e.g. a module-level tolerance computed at import time, before any obligation runs): exact when it is a rational
+        # square, otherwise the double that the real code computes, read exactly
+        c = Fraction(x.n.const_value())
+        if c >= 0:
+            import math
+            a, b = math.isqrt(c.numerator), math.isqrt(c.denominator)
+            if a * a == c.numerator and b * b == c.denominator:
+                return Sym(Poly.const(Fraction(a, b)))
+            if STATE is None:
+                return Sym(Poly.const(Fraction(math.sqrt(float(c)))))
     st = _need_state()
     if x.d is not None:
         # sqrt(n/d) = sqrt(n*d)/|d| ; only supported when d is provably a square or positive: keep simple
